@@ -46,6 +46,7 @@ pub struct GoRec {
     pub over_ns: u64,
     pub info_time_ms: Option<u128>,
     pub infos: Vec<(u64, u32, u64)>, // (seq, depth, search polls at emission)
+    pub info_times: Vec<u64>,
     pub pvs: Vec<Vec<String>>,
     pub best: Option<String>,
     pub best_seq: u64,
@@ -462,6 +463,7 @@ pub fn analyse_session(case: &Case, out: &Outcome) -> Analysis {
                     if let Some(d) = line.strip_prefix("info depth ") {
                         if let Ok(d) = d.trim().parse::<u32>() {
                             g.infos.push((e.seq, d, *polls));
+                            g.info_times.push(e.t);
                         }
                     } else if let Some(pv) = line.strip_prefix("info pv") {
                         g.pvs.push(pv.split_ascii_whitespace().map(|s| s.to_string()).collect());
@@ -648,6 +650,19 @@ pub fn analyse_session(case: &Case, out: &Outcome) -> Analysis {
                 if end_polls > polls_at {
                     a.v("C08", "R1-runs-past-depth-limit", g.cmd, format!("`{}`: after `info depth {}` the search expanded {} more node(s){}", g.line, d, end_polls - polls_at, if g.n_best == 0 { " and never answered" } else { "" }));
                     a.v("C14", "R3-no-bestmove-at-depth-limit", g.cmd, format!("`{}` reached depth {} but kept searching", g.line, d));
+                }
+            }
+        }
+        // the answer follows the completed depth at once: simulated time only passes at node polls and when nothing can
+        // run, so any time between the iteration that reached the limit and the bestmove means the search thread waited
+        if let (Some(n), true) = (g.depth, g.n_best > 0) {
+            if let Some(i) = g.infos.iter().position(|(_, d, _)| *d >= n) {
+                if let Some(&t_info) = g.info_times.get(i) {
+                    let slack = (case.params.fair as u64 + 2) * case.params.node_cost;
+                    if g.best_t > t_info + slack && g.best_polls == g.infos[i].2 {
+                        a.v("C08", "R1-answer-delayed-after-depth-limit", g.cmd, format!("`{}`: depth {} was complete at {} ns, the bestmove only came {} ns later although nothing more was searched", g.line, g.infos[i].1, t_info, g.best_t - t_info));
+                        a.v("C14", "R3-no-bestmove-at-depth-limit", g.cmd, format!("`{}` reached depth {} but announced its move only {} ns later", g.line, g.infos[i].1, g.best_t - t_info));
+                    }
                 }
             }
         }
